@@ -1,1 +1,42 @@
-From ZB Require Import Api.Api.
+(* C20 - closing or losing the link never strands a caller and is reported once. *)
+From Coq Require Import NArith List Bool.
+From ZB Require Import Api.Api Api.ApiProofs.
+Import ListNotations.
+Open Scope N_scope.
+
+(* after close() (and after a connection loss) the link is absent, and stays absent *)
+Theorem C20_close_makes_link_absent : forall s, uart_present (step s EClose) = false.
+Proof. exact close_makes_link_absent. Qed.
+Print Assumptions C20_close_makes_link_absent.
+Theorem C20_link_stays_absent : forall s e, uart_present s = false -> uart_present (step s e) = false.
+Proof. exact link_stays_absent. Qed.
+Print Assumptions C20_link_stays_absent.
+
+(* new requests are refused immediately: the request ends in the very step it is issued *)
+Theorem C20_new_requests_refused_immediately : forall s rid cls b n t, uart_present s = false -> get s rid = None ->
+  log (step s (EIssue rid cls b n t)) = OE rid ORuntime :: log s.
+Proof. exact issue_refused_when_link_absent. Qed.
+Print Assumptions C20_new_requests_refused_immediately.
+
+(* the owning application is told exactly once per loss, only while attached and not during a reset, by no other event *)
+Theorem C20_loss_reported_exactly_once : forall s e,
+  count_lost (log (step s e)) =
+  (count_lost (log s) + match e with ELost => if app_attached s && negb (reset_in_progress s) then 1 else 0 | _ => 0 end)%nat.
+Proof. exact loss_reported_exactly. Qed.
+Print Assumptions C20_loss_reported_exactly_once.
+Theorem C20_close_detaches_app : forall s, reset_in_progress s = false -> app_attached (step s EClose) = false.
+Proof. exact close_detaches_app. Qed.
+Print Assumptions C20_close_detaches_app.
+
+(* every request still ends with an outcome and never keeps a waiter (C13), also across close / loss *)
+Theorem C20_no_waiter_survives : forall evs, Forall good (reqs (run_events evs)).
+Proof. exact finished_requests_have_no_pending_waiter. Qed.
+Print Assumptions C20_no_waiter_survives.
+
+(* termination within the ACK wait after close: decided on the model for this scenario by computation (the general
+   statement "for all histories, all_done after Close; Tick ACK_TIMEOUT" is checked by the correspondence monitor
+   at every quiescent point of the scenarios, not yet proved: C20_termination is PARTIAL) *)
+Example C20_termination_instance :
+  let s := run_events [EIssue 1 10 true 1 5000; EIssue 2 11 true 1 5000; EIssue 3 12 false 2 5000; EAck 0; EClose; ETick 1000] in
+  forallb is_done (reqs s) = true /\ now s = 1000.
+Proof. vm_compute. split; reflexivity. Qed.
